@@ -108,6 +108,85 @@ def c26_modelfold(R):
     )
 
 
+def _in_loop(node):
+    p_ = getattr(node, "_parent", None)
+    while p_ is not None and not isinstance(p_, (ast.FunctionDef, ast.AsyncFunctionDef)):
+        if isinstance(p_, (ast.While, ast.For)):
+            return True
+        p_ = getattr(p_, "_parent", None)
+    return False
+
+
+@rule(
+    "C11.probemodel",
+    props=("C11", "C26"),
+    floor=2,
+    family="PAIR",
+    desc="every satisfiability probe of BackendZ3._extrema hands the model of a satisfiable probe to model_callback (under "
+    "no other condition than the probe's result and the callback being given): ModelCacheMixin marks the expression "
+    "exhausted after min/max on the strength of those models, and the model of the optimum may come from any probe, the "
+    "last one included",
+)
+def c11_probemodel(R):
+    tree = R.tree
+    m = tree.mod(Z3B)
+    fn = tree.func_inlined(Z3B, "BackendZ3._extrema")
+    ps = [a.arg for a in fn.args.args]
+    # which parameter carries the public `model_callback` of _min / _max
+    cb = None
+    for c in ast.walk(tree.func(Z3B, "BackendZ3._max")):
+        if isinstance(c, ast.Call) and isinstance(c.func, ast.Attribute) and c.func.attr == "_extrema":
+            for i, a in enumerate(c.args):
+                if isinstance(a, ast.Name) and a.id == "model_callback" and i + 1 < len(ps):
+                    cb = ps[i + 1]
+            for k in c.keywords:
+                if isinstance(k.value, ast.Name) and k.value.id == "model_callback":
+                    cb = k.arg
+    R.need(cb is not None, "_max no longer passes its model_callback to _extrema")
+
+    def blocks(node):
+        for fld in ("body", "orelse", "finalbody"):
+            b = getattr(node, fld, None)
+            if isinstance(b, list) and b and isinstance(b[0], ast.stmt):
+                yield b
+                for st in b:
+                    if not isinstance(st, (ast.FunctionDef, ast.AsyncFunctionDef, ast.ClassDef)):
+                        yield from blocks(st)
+        for h in getattr(node, "handlers", []) or []:
+            yield from blocks(h)
+
+    n = 0
+    for b in blocks(fn):
+        for i, st in enumerate(b):
+            if not (isinstance(st, ast.Assign) and len(st.targets) == 1 and isinstance(st.targets[0], ast.Name) and isinstance(st.value, ast.Call) and (ast.unparse(st.value.func).split(".")[-1] == "z3_solver_sat")):
+                continue
+            n += 1
+            var = st.targets[0].id
+            outer = {re.sub(r"\s+", " ", f) for f in guards.holds(st)}
+            found = False
+            for later in b[i + 1 :]:
+                if isinstance(later, ast.Assign) and any(isinstance(t, ast.Name) and t.id == var for t in later.targets):
+                    break
+                for c in ast.walk(later):
+                    if isinstance(c, ast.Call) and isinstance(c.func, ast.Name) and c.func.id == cb:
+                        extra = {re.sub(r"\s+", " ", f) for f in guards.holds(c)} - outer
+                        allowed = {var, f"{cb} is not None", cb, f"{var} is True", f"{var} == True"}
+                        if extra <= allowed:
+                            found = True
+            R.check(
+                found,
+                m,
+                st,
+                "probe reports its model",
+                f"_extrema probes with `{ast.unparse(st)[:70]}` and does not hand the model of a satisfiable outcome to `{cb}` "
+                f"(under nothing but the outcome and the callback being given): the optimum's model may come from this probe "
+                f"only, ModelCacheMixin marks the expression exhausted all the same, and the next max() answers from the cache "
+                f"with a smaller value",
+                construct=f"_extrema: {'search-loop' if _in_loop(st) else 'closing'} probe reports a satisfiable model",
+            )
+    R.need(n >= 2, f"_extrema: only {n} probes found")
+
+
 @rule(
     "C16.clonecore",
     props=("C16", "C14"),
